@@ -105,6 +105,11 @@ CheckDec(e) ==
 VV == INSTANCE Validity
 CheckGrid(e) ==
   IF ~VV!PartsValid(e.parts) THEN "skip:invalid"
+  \* a vertex of one ring in the interior of another ring's edge is an exact incidence on the integers only: k/10^q is not
+  \* a binary fraction, the decoded vertex lies a rounding error off the decoded edge, and whether the float geometry is
+  \* valid is no longer decided by the lattice. Shared vertices (equal decimals, equal floats) are the incidences that
+  \* survive, and the claim is made for those.
+  ELSE IF ~VV!GeneralPosition(VV!Merge(e.parts), VV!EmptyFlat) THEN "skip:vertex-on-edge"
   ELSE IF e.err # "" THEN "marshal-error-on-valid-geometry"
   ELSE IF e.decerr # "" THEN "validating-reader-rejects-valid-geometry-on-the-grid"
   ELSE IF ~e.same THEN "decoded-geometry-differs-on-the-grid"
